@@ -1466,7 +1466,13 @@ func (s *SelectStatement) RewriteRegexConditions() {
 		}
 
 		// Handle regex-based condition.
-		rhs := be.RHS.(*RegexLiteral) // This must be a regex.
+		// The parser only guarantees a regex directly after the operator; with a
+		// tighter-binding operator behind it ("host =~ /a/ + 1") the right operand
+		// is a larger expression, which cannot be rewritten.
+		rhs, ok := be.RHS.(*RegexLiteral)
+		if !ok {
+			return e
+		}
 
 		vals, ok := matchExactRegex(rhs.Val.String())
 		if !ok {
